@@ -13,6 +13,7 @@ Decision procedure (DESIGN.md §2.5):
 import sys, os, json, time, random, argparse, importlib, traceback
 from . import common as C
 from . import translate
+from . import translate_vec
 
 
 class Op:
@@ -66,23 +67,36 @@ def run(pid, tier, seed, replay=None):
     info.update({'t1_units': t1['t1_units'], 't1_fallback_units': t1['t1_fallback_units']})
     if t1.get('t1_vec_t2_only'):
       info['t1_vec_t2_only'] = t1['t1_vec_t2_only']      # vector units read but outside the T1v subset: tied by T2 only
+    vec_lemmas = t1.get('t1_vec_fallback_lemmas', {})      # untranslatable vector unit -> bridge lemmas about it / its callers
+    elsewhere = []
     for u in t1['t1_fallback_units']:
+      if u.startswith('vec.'):
+        # a vector unit concerns this property only through the bridge lemmas the property audits (blast radius:
+        # the unit and the units that call it); otherwise it is recorded in the evidence and belongs to other checks
+        if not set(vec_lemmas.get(u.split(' @')[0][4:], [])) & set(prop.bridge):
+          elsewhere.append(u)
+          continue
       red.append(('t1-untranslatable', u, 'source unit is outside the translatable subset'))
+    if elsewhere:
+      info['t1_fallback_units_not_audited_here'] = elsewhere
 
   # ---- proofs
   ok_model, log_model = C.lake_build(['DK.Driver.Main'])
   if not ok_model:
     errs = C.build_errors(log_model)
-    if prop.uses_t1 and (any('Gen/' in e or 'Gen.' in e for e in errs) or info.get('t1_fallback_units')):
+    if prop.uses_t1 and (any('Gen/' in e or 'Gen.' in e for e in errs) or any(r[0] == 't1-untranslatable' for r in red)):
       red.append(('t1-gen-does-not-compile', 'DK.Gen', '; '.join(errs[:3])))
     else:
       print('TOOL FAILURE: model driver does not build\n' + log_model[-3000:])
       return 2
   # proof obligations: {module: [theorem names]}; `theorems` may be a plain list (all in lean_module)
   groups = dict(prop.theorems) if isinstance(prop.theorems, dict) else {prop.lean_module: list(prop.theorems)}
+  vec_modules = translate_vec.bridge_modules() if any(b.startswith('DK.BridgeVec.') for b in prop.bridge) else {}
   for b in prop.bridge:
-    # bridge lemmas are audited from the module that proves them: scalar kernels (Bridge) / vector bodies (BridgeVec)
-    bmod = 'DK.Lemmas.BridgeVec' if b.startswith('DK.BridgeVec.') else 'DK.Lemmas.Bridge'
+    # every bridge lemma is built and audited from the module that proves it: scalar kernels in DK.Lemmas.Bridge, vector
+    # bodies in DK.Lemmas.BridgeVec.<Group> (table read off the Lean sources), so that a broken unit of another source
+    # group does not stop this property's own obligations from compiling
+    bmod = vec_modules.get(b, 'DK.Lemmas.BridgeVec') if b.startswith('DK.BridgeVec.') else 'DK.Lemmas.Bridge'
     groups[bmod] = list(groups.get(bmod, [])) + [b]
   modules = sorted(set(list(groups) + ([prop.lean_module] if prop.lean_module else [])))
   obligations = [t for m in groups for t in groups[m]]
@@ -90,8 +104,13 @@ def run(pid, tier, seed, replay=None):
   ok_proofs, log_proofs = C.lake_build(modules)
   axioms = {}
   if ok_proofs:
+    vec_groups = [m for m in groups if m.startswith('DK.Lemmas.BridgeVec')]
     for m in groups:
-      ax, raw = C.audit_axioms(m, groups[m])
+      if m not in vec_groups:
+        ax, raw = C.audit_axioms(m, groups[m])
+        axioms.update(ax)
+    if vec_groups:      # the (already built) per-group bridge modules are audited together, in one Lean process
+      ax, raw = C.audit_axioms(vec_groups, [t for m in vec_groups for t in groups[m]])
       axioms.update(ax)
     for t in obligations:
       if t not in axioms:
